@@ -6,6 +6,7 @@ Every small integer is abstracted to  Index + off  where `off` is a polynomial o
 need equal offsets in that branch; stores into label sinks need offset cs; subscripts of class-indexed
 dimensions need offset 0."""
 import os
+import re
 
 from . import frontend as fe
 from .frontend import kids, strip, walk, callee_name, call_args
@@ -417,3 +418,94 @@ def all_paths_store(s):
         a, b = all_paths_store(t), all_paths_store(e)
         return {key: a[key] for key in a if key in b}
     return {}
+
+
+# ---------------------------------------------------------------------------------------
+# arg-max idiom: the running reference of an arg-max/arg-min search is an element of the searched sequence or a true bound
+
+LOWER_BOUNDS = re.compile(r'^\(?\s*-\s*\(?\s*(DBL_MAX|FLT_MAX|LDBL_MAX|HUGE_VAL|INFINITY|__builtin_inf\w*\(\)|__builtin_huge_val\w*\(\))') if False else None
+
+
+def argmax_rule(chk, prog, funcs):
+    import re
+    R = chk.rule('OF.argmax', 'in an arg-max search `if(S[j] > ref) best_index = j` the reference is the element at the current best '
+                 'index, or a running value that starts from an element of S or from -DBL_MAX/-INFINITY (never from a value some score '
+                 'may lie below, such as 0 or DBL_MIN) and is updated together with the index')
+    lower = re.compile(r'^\(*\s*-\s*\(*\s*(DBL_MAX|FLT_MAX|LDBL_MAX|HUGE_VAL|INFINITY)')
+    upper = re.compile(r'^\(*\s*\+?\s*\(*\s*(DBL_MAX|FLT_MAX|LDBL_MAX|HUGE_VAL|INFINITY)')
+    for name in funcs:
+        f = prog.funcs.get(name)
+        if f is None:
+            continue
+        pm = flow.parent_map(f.body)
+        for n in walk(f.body):
+            if n.get('kind') != 'IfStmt':
+                continue
+            c, t, e = flow.if_parts(n)
+            cs = strip(c)
+            if not (cs.get('kind') == 'BinaryOperator' and cs.get('opcode') in ('>', '>=', '<', '<=')):
+                continue
+            a, b = kids(cs)
+            if not (fe.is_float_type(strip(a, casts=False)) and fe.is_float_type(strip(b, casts=False))):
+                continue
+            # then-branch records the loop variable as the new best index:  v = j
+            loops = flow.enclosing_loops(pm, n)
+            ind = flow.induction(loops[0]) if loops else None
+            if not ind:
+                continue
+            jid = ind['var'].split('#')[1]
+            best_idx = None
+            for x in walk(t):
+                if is_assign(x) and x.get('opcode') == '=' and fe.ref_id(kids(x)[1]) == jid and strip(kids(x)[0]).get('kind') == 'DeclRefExpr':
+                    best_idx = strip(kids(x)[0])['referencedDecl']
+            if best_idx is None:
+                continue
+            # which side is the candidate S[..j..] and which the reference
+            def mentions(expr, did):
+                return any(y.get('kind') == 'DeclRefExpr' and y['referencedDecl']['id'] == did for y in walk(expr))
+            if mentions(a, jid) and not mentions(b, jid):
+                cand, ref, op = a, b, cs['opcode']
+            elif mentions(b, jid) and not mentions(a, jid):
+                cand, ref, op = b, a, {'>': '<', '>=': '<=', '<': '>', '<=': '>='}[cs['opcode']]
+            else:
+                continue
+            maximise = op in ('>', '>=')
+            desc = '%s %s: %s -> %s = %s' % (f.unit.where(n), name, f.unit.text(c)[:60], best_idx['name'], ind['var'].split('#')[0])
+            rs = strip(ref)
+            ok, why = False, ''
+            if rs.get('kind') == 'ArraySubscriptExpr' and mentions(rs, best_idx['id']):
+                ok = True          # S[best]: always an element of the sequence
+            elif rs.get('kind') == 'DeclRefExpr':
+                rid = rs['referencedDecl']['id']
+                defs = []
+                for x in walk(f.body):
+                    if is_assign(x) and x.get('opcode') == '=' and fe.ref_id(kids(x)[0]) == rid:
+                        defs.append((x, kids(x)[1]))
+                    if x.get('kind') == 'VarDecl' and x.get('id') == rid and kids(x):
+                        defs.append((x, kids(x)[-1]))
+                updated = any(any(y is dnode for y in walk(t)) for dnode, _ in defs)
+                bad = []
+                for dnode, rhs in defs:
+                    r2 = strip(rhs)
+                    txt = f.unit.text(rhs)
+                    if r2.get('kind') == 'ArraySubscriptExpr' or (r2.get('kind') == 'CallExpr' and 'get' in (callee_name(r2) or '')):
+                        continue
+                    if (lower if maximise else upper).match(txt):
+                        continue
+                    bad.append((dnode, txt))
+                if bad:
+                    why = 'the running %s `%s` is initialised with `%s`, which is not %s every score' % (
+                        'maximum' if maximise else 'minimum', rs['referencedDecl']['name'], bad[0][1][:40], 'below' if maximise else 'above')
+                elif not updated:
+                    why = 'the running reference `%s` is not updated when a better element is found' % rs['referencedDecl']['name']
+                else:
+                    ok = True
+            else:
+                why = 'the reference `%s` is neither the element at the best index nor a running value' % f.unit.text(ref)[:40]
+            if ok:
+                chk.instance(R, desc)
+            else:
+                chk.instance(R, desc + ': ' + why, 'refuted')
+                chk.violation(Finding('OF.argmax', rel(f.file), name, 'argmax:' + best_idx['name'], f.unit.where(n),
+                                      '%s: arg-%s search over `%s`: %s; an object whose scores all lie on the other side keeps the initial index'
+                                      % (name, 'max' if maximise else 'min', f.unit.text(cand)[:50], why)))
